@@ -1,28 +1,43 @@
 /-
-The statement-level IR of the size-limit functions (generated into Gen/Limits.lean by
-extract/limits.go) and its interpreter.  A function body is a list of steps executed in
-order; a guard whose left operand exceeds its right operand returns an error.  Two kinds
-of side effects are recorded, in order, in the trace:
-  * CLOCK steps — Increment / Witness of one of the node's Lamport clocks (also when the
-    call sits inside the message literal).  Advancing the node's own clock is not
-    something property C33 forbids for a rejected event;
+The step-level IR of the size-limit functions (generated into Gen/Limits.lean by
+extract/limits.go) and its interpreter.  A function body is reduced to the ordered list of
+  * guards  — the function returns an error iff `lhs > rhs` (a size comparison, however it is spelled),
+  * tests   — any other `if cond { return error }` (deadline passed, already responded, protocol too old),
+  * CLOCK steps — Increment / Witness of one of the node's Lamport clocks (also inside the
+    message literal).  Advancing the node's own clock is not something C33 forbids for a rejected event;
   * OBSERVABLE effects — local delivery (handleUserEvent / handleQuery), QueueBroadcast,
     registerQueryResponse, SendToAddress, relay.
+Everything else (assignments, locks, encoding, error propagation, effect-free helpers) is
+dropped by the extractor; operands and arguments are alpha-normalised and classified.
 -/
 namespace SerfModel.LimitSteps
 
+/-- a guard operand -/
+inductive Opnd where
+  /-- `len(p_i) + …` over the function's parameters -/
+  | sumLenParams (is : List Nat)
+  /-- length of the result of encodeMessage / encodeRelayMessage: normalised call text, "fn:messageType",
+  the keyed fields of the encoded message literal -/
+  | lenEnc (desc typ : String) (fields : List (String × String))
+  /-- `<recv>[.serf].config.<field>` -/
+  | cfg (field : String)
+  | const (n : Nat)
+  | other (txt : String)
+  deriving DecidableEq, Repr
+
+/-- an effect argument -/
+inductive Arg where
+  /-- the result of an encode call (possibly wrapped, e.g. `&broadcast{msg: raw}`): "fn:messageType", call text -/
+  | enc (typ desc : String)
+  | param (i : Nat)
+  | other (txt : String)
+  deriving DecidableEq, Repr
+
 inductive Step where
-  /-- `if lhs > rhs { return error }` -/
-  | guard (lhs rhs : String)
-  /-- `if err := call; err != nil { return err }` -/
-  | check (call : String)
-  /-- no side effect -/
-  | pure (what : String)
-  /-- a Lamport clock step (`what` = "<clock>.<method>"), `stmt` = the statement text -/
-  | clock (what : String) (stmt : String)
-  /-- delivers / queues / sends / registers -/
-  | effect (what : String) (args : String)
-  | ret
+  | guard (lhs rhs : Opnd)
+  | test (cond : String)
+  | clock (what : String)
+  | effect (what : String) (args : List Arg)
   deriving DecidableEq, Repr
 
 inductive Ev where
@@ -30,14 +45,13 @@ inductive Ev where
   | effect (what : String)
   deriving DecidableEq, Repr
 
-/-- result of running a body: `ok = false` when a guard (or failing check) returned an
-error; `trace` = the clock steps and observable effects performed before returning, in order -/
+/-- `ok = false` when a guard or test returned an error; `trace` = the clock steps and
+observable effects performed before returning, in order -/
 structure Outcome where
   ok : Bool
   trace : List Ev
   deriving DecidableEq, Repr
 
-/-- the observable effects of a trace, in order -/
 def observable : List Ev → List String
   | [] => []
   | .effect w :: r => w :: observable r
@@ -50,45 +64,67 @@ def clocks : List Ev → List String
 
 def Outcome.effects (o : Outcome) : List String := observable o.trace
 
-/-- `env` gives the numeric value of guard operands; `checkFails` says whether a `check`
-call fails. -/
-def run (env : String → Nat) (checkFails : String → Bool) : List Step → List Ev → Outcome
+/-- `env` gives the numeric value of guard operands; `testFails` says which tests return an error. -/
+def run (env : Opnd → Nat) (testFails : String → Bool) : List Step → List Ev → Outcome
   | [], acc => ⟨true, acc.reverse⟩
-  | .guard l r :: rest, acc => if env l > env r then ⟨false, acc.reverse⟩ else run env checkFails rest acc
-  | .check c :: rest, acc => if checkFails c then ⟨false, acc.reverse⟩ else run env checkFails rest acc
-  | .pure _ :: rest, acc => run env checkFails rest acc
-  | .clock w _ :: rest, acc => run env checkFails rest (.clock w :: acc)
-  | .effect w _ :: rest, acc => run env checkFails rest (.effect w :: acc)
-  | .ret :: _, acc => ⟨true, acc.reverse⟩
+  | .guard l r :: rest, acc => if env l > env r then ⟨false, acc.reverse⟩ else run env testFails rest acc
+  | .test c :: rest, acc => if testFails c then ⟨false, acc.reverse⟩ else run env testFails rest acc
+  | .clock w :: rest, acc => run env testFails rest (.clock w :: acc)
+  | .effect w _ :: rest, acc => run env testFails rest (.effect w :: acc)
 
-def guards : List Step → List (String × String)
+def guards : List Step → List (Opnd × Opnd)
   | [] => []
   | .guard l r :: rest => (l, r) :: guards rest
   | _ :: rest => guards rest
 
+/-- an operand without the text of the encode call (what the obligations pin) -/
+def Opnd.shape : Opnd → Opnd
+  | .lenEnc _ typ _ => .lenEnc "" typ []
+  | o => o
+
+/-- an argument without the text of the encode call -/
+def Arg.shape : Arg → Arg
+  | .enc typ _ => .enc typ ""
+  | a => a
+
+def guardShapes (s : List Step) : List (Opnd × Opnd) := (guards s).map fun p => (p.1.shape, p.2.shape)
+
+/-- the encode calls whose length is guarded: (typ, desc, fields) -/
+def guardedEncs : List Step → List (String × String × List (String × String))
+  | [] => []
+  | .guard (.lenEnc d t f) _ :: rest => (t, d, f) :: guardedEncs rest
+  | _ :: rest => guardedEncs rest
+
+def effectArgs (name : String) : List Step → List (List Arg)
+  | [] => []
+  | .effect w a :: rest => if w = name then a :: effectArgs name rest else effectArgs name rest
+  | _ :: rest => effectArgs name rest
+
+def fieldOf (fields : List (String × String)) (k : String) : Option String :=
+  match fields.find? (·.1 = k) with
+  | some p => some p.2
+  | none => none
+
 def isGate : Step → Bool
   | .guard _ _ => true
-  | .check _ => true
+  | .test _ => true
   | _ => false
 
 def isEffect : Step → Bool
   | .effect _ _ => true
   | _ => false
 
-/-- every observable effect comes after every guard/check: once an effect has been
-performed no size test can still reject -/
+/-- every observable effect comes after every guard / test -/
 def effectsAfterGates : List Step → Bool
   | [] => true
   | s :: rest => (if isEffect s then !(rest.any isGate) else true) && effectsAfterGates rest
 
-/-- the kinds of side-effecting steps in order (guards as "guard", checks as "check") — the
-skeleton the `decide` obligations pin down -/
+/-- the kinds of steps in order — the skeleton the `decide` obligations pin down -/
 def skeleton : List Step → List String
   | [] => []
   | .guard _ _ :: r => "guard" :: skeleton r
-  | .check _ :: r => "check" :: skeleton r
-  | .clock w _ :: r => ("clock:" ++ w) :: skeleton r
+  | .test c :: r => ("test:" ++ c) :: skeleton r
+  | .clock w :: r => ("clock:" ++ w) :: skeleton r
   | .effect w _ :: r => ("effect:" ++ w) :: skeleton r
-  | _ :: r => skeleton r
 
 end SerfModel.LimitSteps
